@@ -11,6 +11,7 @@ mod c29;
 mod c20;
 mod c22;
 mod c23;
+mod c24;
 mod gens;
 mod lang;
 mod vrlrun;
@@ -39,6 +40,7 @@ const EXECS: &[Exec] = &[
     c22::exec,
     c15::exec,
     c23::exec,
+    c24::exec,
 ];
 
 /// Run one case (`op` + inputs) on the implementation: the first module that recognises the op answers.
@@ -65,6 +67,7 @@ fn generate(prop: &str, sink: &mut sink::Sink, rng: &mut rng::Rng, n: u64) -> bo
         "C20" => c20::generate(sink, rng, n),
         "C22" => c22::generate(sink, rng, n),
         "C23" => c23::generate(sink, rng, n),
+        "C24" => c24::generate(sink, rng, n),
         _ => return false,
     }
     true
